@@ -284,7 +284,7 @@ def run(ctx):
     if thorough:
         out = ctx.path("conc.ndjson")
         rc, text, wall = ctx.go_test(MODULE, PKG, HARNESS, "^TestVerifGorpConcurrent$",
-                                     env={"VERIF_OUT": out, "VERIF_TRIALS": 3000}, tag="conc", timeout=1500)
+                                     env={"VERIF_OUT": out, "VERIF_TRIALS": 3000, "VERIF_POP_TRIALS": 6000}, tag="conc", timeout=1500)
         conc = ctx.read_ndjson(out)
         if rc != 0 or not conc:
             raise vlib.Inconclusive("concurrent driver failed rc=%s:\n%s" % (rc, text[-2000:]))
@@ -340,7 +340,8 @@ def replay(ctx, path):
     with open(one, "w") as f:
         f.write(json.dumps(obj["history"]) + "\n")
     summ, bad, _ = replay_file(ctx, one, defs_path, obj.get("nval", 3), "replay")
-    bad = [b for b in bad if b.get("cls") in PROPERTY_CLS]
+    want = (obj.get("mismatch") or {}).get("cls")
+    bad = [b for b in bad if b.get("cls") in PROPERTY_CLS and (b.get("cls") != "dup-values" or want == "dup-values")]
     if bad:
         print("VIOLATION property=C17 replay=%s" % path)
         print("  " + json.dumps(bad[0]))
